@@ -51,6 +51,7 @@ Judge(c) ==
          ELSE IF ~c.again THEN V(c, Tag(pin, IF c.againclass = "indent" THEN "NotIdempotent:IndentationSettlesOnSecondPass"
                                       ELSE IF c.againclass = "continuation" THEN "NotIdempotent:InputHasLineContinuation"
                                       ELSE IF c.againclass = "nosinglecomma" THEN "NotIdempotent:NoSingleCommaFunctionCollapsesOnSecondPass"
+                                      ELSE IF c.againclass = "settles" THEN "NotIdempotent:LayoutSettlesOnALaterPass"
                                       ELSE "NotIdempotent"), "")
          ELSE IF c.checkrc # -1 /\ (c.checkrc # 0) # c.changed THEN V(c, "CheckOnlyWrong", "")
          ELSE IF c.diffrc # -1 /\ (c.diffrc # 0) # c.changed THEN V(c, "CheckDiffWrong", "")
